@@ -196,6 +196,8 @@ def plan(tier, seed):
     n = 8 if tier == 'quick' else 32
     for p in range(n):
         shards.append({'kind': 'mutate', 'part': p, 'parts': n, 'base': 300 if tier == 'quick' else 5000, 'k': 10 if tier == 'quick' else 12})
+    for p in range(4):
+        shards.append({'kind': 'long', 'k': 12 if tier == 'quick' else 60, 'part': p, 'parts': 4})
     return shards
 
 
@@ -372,7 +374,34 @@ def run_mutate(shard, ctx):
     r.sample({'base': mine[:2], 'empty_arguments': empt[:4], 'mutants': [t for t, h, g in items if h == 'mutant'][:6], 'whitespace': [t for t, h, g in items if h == 'ws'][:3]})
 
 
+def long_lists(rng):
+    """argument lists around the lengths where an implementation may switch strategy (recursion depth, Excel's 255 limit)"""
+    out = []
+    atoms = ['A1', 'B1', '2', 'C1', '1.5', 'A1:C1', 'D1', '(E1)', 'A1+B1', '"x"', 'F1']
+    for n in (60, 124, 125, 126, 130, 200, 254):
+        for fn in ('SUM', 'MAX', 'CONCATENATE', 'AND', 'COUNT', 'MIN', 'OR'):
+            if rng.random() < 0.5 and n not in (125, 130):
+                continue
+            pool = [a for a in atoms if not (fn in ('AND', 'OR') and a in ('"x"', 'A1:C1'))]
+            out.append(f'={fn}(' + rng.choice([',', ';']).join(rng.choice(pool) for _ in range(n)) + ')')
+    return out
+
+
+def run_long(shard, ctx):
+    r, rng = ctx.r, ctx.rng
+    items = []
+    for gi, f in enumerate(long_lists(rng)):
+        items.append((f, 'base', gi))
+        r.count('long_argument_lists')
+        for m in mutants(f, rng, shard['k']):
+            items.append((m, 'mutant', None))
+    mine = [it for i, it in enumerate(items) if i % shard['parts'] == shard['part']]
+    run_texts(ctx, mine, 'L')
+
+
 def run_shard(shard, ctx):
+    if shard.get('kind') == 'long':
+        return run_long(shard, ctx)
     if 'replay' in shard:
         c = shard['replay']
         items = [(c['text'], c.get('how', 'mutant'), 0 if 'base' in c else None)]
